@@ -1,4 +1,4 @@
-import Proofs.EngineLogicTie
+import Proofs.EngineLogicBuffers
 /-!
 # C04 — the decision logic of `tensor.py`, read from the source on this run, is the logic of the engine model
 
